@@ -511,6 +511,18 @@ def gen_fn(fn, g, canary=False):
                     inserts.append((btoks[j][3], _hint_text(htext)))
         if found == 0:
             raise LostAnchor('%s: hint anchor %s: no call found' % (fn.key, anchor))
+    # text anchors: after-text:<statement text> / before-text:<statement text> (first occurrence in the body)
+    for anchor, htext in fn.hints.items():
+        m = re.match(r'^(before|after)-text:(.+)$', anchor, re.S)
+        if not m:
+            continue
+        p = body.find(m.group(2))
+        if p < 0:
+            raise LostAnchor('%s: hint anchor %s: text not found' % (fn.key, anchor))
+        if m.group(1) == 'before':
+            inserts.append((p, _hint_text(htext) + '\n'))
+        else:
+            inserts.append((p + len(m.group(2)), _hint_text(htext)))
     eds = [(p, p, t) for p, t in inserts]
     # stable order for same position: keep list order
     eds_sorted = sorted(range(len(eds)), key=lambda i: (eds[i][0], i))
